@@ -367,11 +367,93 @@ fn cli_payload_case(t0: &mut Tape, w: &Worker) -> CaseResult {
     Ok(out)
 }
 
+/// hand-built reproduction of the repaired filter-offset defect (F1), independent of the generators
+fn regress_case(i: u64, w: &Worker) -> CaseResult {
+    let mut bytes = vec![];
+    let mut offs = vec![];
+    for (k, link) in [0u8, 0, 1, 0, 1].iter().enumerate() {
+        let mut r = Rdh { link_id: *link, packet_counter: k as u8, ..Rdh::default() };
+        r.set_sizes(16 * k);
+        offs.push((bytes.len() as u64, *link));
+        bytes.extend_from_slice(&r.encode());
+        bytes.extend(std::iter::repeat(0x11).take(16 * k));
+    }
+    let mut case = CliCase::new(w, bytes.clone());
+    let (spec, o) = case.run(vec!["view".into(), "rdh".into(), "-d".into(), "-f".into(), "1".into()], i % 2 == 1);
+    let rows: Vec<u64> = parse_rdh_view(&cli::strip_ansi(&o.stdout_str())).iter().map(|r| r.0).collect();
+    let want: Vec<u64> = offs.iter().filter(|x| x.1 == 1).map(|x| x.0).collect();
+    if rows != want {
+        return Err(Fail::new("C03:offset-wrong-under-filter", format!("rows at {rows:X?}, matching RDHs start at {want:X?}"), json!({"cmd": spec.describe(), "input": input_detail(&bytes)})));
+    }
+    let mut out = CaseOut::default();
+    out.nontrivial = true;
+    out.fingerprint = 0xF1 + i;
+    out.execs = 1;
+    out.labels.push("regress:F1".into());
+    Ok(out)
+}
+
+/// one long stream (10^5 packets, many batches): scanner in-process and `view rdh` through the CLI
+fn big_stream_case(i: u64, w: &Worker) -> CaseResult {
+    let n = 100_000usize + (i as usize) * 37; // 100 000 (a multiple of the batch size) and 100 037
+    let mut bytes: Vec<u8> = Vec::with_capacity(n * 80);
+    let mut x = crate::tape::mix(0xC03 + i);
+    let mut offsets: Vec<(u64, u8)> = Vec::with_capacity(n);
+    for k in 0..n {
+        x = crate::tape::mix(x);
+        let link = (x % 5) as u8;
+        let plen = if x % 17 == 0 { ((x >> 8) % 300) as usize } else { 0 };
+        let mut r = Rdh { link_id: link, fee_id: fee_id((x % 7) as u8, 0, ((x >> 4) % 48) as u8), orbit: k as u32, packet_counter: k as u8, ..Rdh::default() };
+        r.set_sizes(plen);
+        offsets.push((bytes.len() as u64, link));
+        bytes.extend_from_slice(&r.encode());
+        bytes.extend(std::iter::repeat((k & 0xFF) as u8).take(plen));
+    }
+    let filter = if i % 2 == 0 { Filter::None } else { Filter::Link(3) };
+    let expected: Vec<u64> = offsets.iter().filter(|(_, l)| filter == Filter::None || *l == 3).map(|(o, _)| *o).collect();
+    // in-process, both reader flavours, payload loaded
+    for pipe in [false, true] {
+        let cfg = filter_cfg(&filter, false);
+        let mut scanner = InputScanner::new(&cfg, Box::new(MemReader { cur: Cursor::new(bytes.clone()), pipe }), None);
+        let mut got = 0usize;
+        while let Ok((rdh, payload, off)) = scanner.load_cdp::<RdhCru>() {
+            if got >= expected.len() || off != expected[got] || payload.len() != rdh.payload_size() as usize {
+                return Err(Fail::new("C03:big-stream:inproc", format!("packet {got}: offset {off:#X}, expected {:?}", expected.get(got)), json!({"n": n, "filter": format!("{filter:?}"), "pipe_like": pipe})));
+            }
+            got += 1;
+        }
+        if got != expected.len() {
+            return Err(Fail::new("C03:big-stream:inproc-count", format!("{got} packets returned, {} expected", expected.len()), json!({"n": n, "filter": format!("{filter:?}"), "pipe_like": pipe})));
+        }
+    }
+    // CLI
+    let mut case = CliCase::new(w, bytes);
+    let mut args: Vec<String> = vec!["view".into(), "rdh".into(), "-d".into()];
+    args.extend(filter.args());
+    let (spec, o) = case.run(args, i % 2 == 1);
+    if o.timed_out || o.crash_signature().is_some() {
+        return Err(Fail::new("C03:big-stream:crash", "crash or hang on the long stream", json!({"cmd": spec.describe(), "out": o.brief()})));
+    }
+    let rows = parse_rdh_view(&cli::strip_ansi(&o.stdout_str()));
+    let got: Vec<u64> = rows.iter().map(|r| r.0).collect();
+    if got != expected {
+        let k = got.iter().zip(expected.iter()).position(|(a, b)| a != b).unwrap_or(got.len().min(expected.len()));
+        return Err(Fail::new("C03:big-stream:cli", format!("view rdh: {} rows, {} expected; first difference at row {k}", got.len(), expected.len()), json!({"cmd": spec.describe(), "n": n})));
+    }
+    let mut out = CaseOut::default();
+    out.nontrivial = true;
+    out.fingerprint = n as u64 ^ i;
+    out.execs = 1;
+    out.labels.push(format!("big_stream:{n}_packets:{}", filter.label()));
+    out.sample = Some(json!({"kind": "big stream", "packets": n, "bytes": case.data.len(), "filter": format!("{filter:?}"), "rows": got.len()}));
+    Ok(out)
+}
+
 pub fn build() -> Property {
     Property {
         id: "C03",
         rule: "G_frame well-framed streams (packet counts {1,2,3..,99..101,199..201,300}, payload 0..10000 with weight on 0/1/9999/10000, arbitrary header values, \
-               colliding link/FEE populations) x filter {none, link, FEE, layer/stave; present or absent}. (a) in-process InputScanner::load_cdp over an in-memory reader \
+               colliding link/FEE populations) x filter {none, link, FEE, layer/stave; present or absent}. (0, thorough only) two streams of 10^5 packets (a multiple of the batch size and 37 more) through the scanner and `view rdh`; (a) in-process InputScanner::load_cdp over an in-memory reader \
                (seek and read-discard flavours, payload loaded / skipped); (b) real CLI `view rdh -d` (payload skipped) and `view its-readout-frames-data -d` (payload loaded), file and stdin. \
                Oracle: independent chain walk o_{i+1}=o_i+offset_i with independent filter predicate and field decode: same packets, once, in order, true offsets, field values, payload bytes. \
                Non-trivial = >=3 packets and (filter skipping a packet before a match | >=100 packets | payload loaded); distinct by stream hash x configuration.",
@@ -380,6 +462,12 @@ pub fn build() -> Property {
             "the first RDH0 passes the documented pre-check and carries a known system id".into(),
         ],
         phases: vec![
+            Phase { name: "regress_fixed", kind: PhaseKind::Enum { n: (2, 2), exhaustive: (false, false), f: Box::new(regress_case) }, threads: 2 },
+            Phase {
+                name: "big_stream_100k",
+                kind: PhaseKind::Enum { n: (0, 2), exhaustive: (false, false), f: Box::new(big_stream_case) },
+                threads: 2,
+            },
             Phase {
                 name: "inproc_scanner",
                 kind: PhaseKind::Gen {
